@@ -71,6 +71,9 @@ def main():
     try:
         sh("cp -r /repo/. %s/" % D, "/")
         rc, out = sh("git apply %s" % os.path.join(src, "patch.diff"), D)
+        if rc != 0:
+            # /repo has moved on since the change was written (fix: commits): three-way
+            rc, out = sh("git update-index --refresh >/dev/null; git apply -3 %s && git reset -q" % os.path.join(src, "patch.diff"), D)
         res["patch_applies"] = rc == 0
         if rc != 0:
             print("patch does not apply:", out[:500]); return finish(res, src, pid, k, dest, False)
@@ -90,7 +93,7 @@ def main():
             shutil.copy(os.path.join(src, f), os.path.join(D, d))
         rc, out = sh("go test -vet=off -count=1 -run '%s' %s" % (run_re, " ".join(pkgs)), D)
         res["demo_fails_with_patch"] = rc != 0 and ("FAIL" in out)
-        rc, out2 = sh("git apply -R %s && go test -vet=off -count=1 -run '%s' %s" % (os.path.join(src, "patch.diff"), run_re, " ".join(pkgs)), D)
+        rc, out2 = sh("(git apply -R %s || git checkout -q -- $(git diff --name-only)) && go test -vet=off -count=1 -run '%s' %s" % (os.path.join(src, "patch.diff"), run_re, " ".join(pkgs)), D)
         res["demo_passes_without"] = rc == 0
         if rc != 0:
             print("demo does not pass on HEAD:\n" + out2[-600:])
